@@ -57,7 +57,48 @@ def getNested (j : Json) : Except String Nested := do
 def getNValue (j : Json) : Except String NValue := do
   (← getList pure j).mapM (fun p => do pure (← fStr p "key", ← getArr (← field p "value")))
 
+def kindStr : Leaf.Kind → String
+  | .array => "Array" | .bounded => "BoundedArray" | .discrete => "DiscreteArray" | .multi => "MultiDiscreteArray"
+
+def jAttrVal : Leaf.AttrVal → Json
+  | .shape s => jObj [("shape", jNats s)]
+  | .dtype d => jObj [("dtype", jStr (dtypeStr d))]
+  | .name n => jObj [("name", jStr n)]
+  | .arr sh m => jObj [("arr", jObj [("shape", jNats sh), ("data", jRats m)])]
+  | .nat n => jObj [("nat", jNat n)]
+  | .natArr sh nv => jObj [("nat_arr", jObj [("shape", jNats sh), ("data", jNats nv)])]
+  | .absent => .null
+
+def jNested (n : Nested) : Json := jList (fun (p : String × Leaf) => jObj [("key", jStr p.1), ("spec", jLeaf p.2)]) n
+def getChildren (j : Json) : Except String (List (String × Nested)) := do
+  (← getList pure j).mapM (fun p => do pure (← fStr p "key", ← getNested (← field p "spec")))
+
 def ops : List (String × Op) := [
+  -- what the constructor does with these arguments: accepted?, within contract (well-formed)?, the stored maxima
+  ("spec.ctor", fun j => do
+      let l ← getLeaf (← field j "spec")
+      let stored : List Int := match l with
+        | .discrete n d _ => [Leaf.storedMax d n]
+        | .multiDiscrete _ nv d _ => nv.map (Leaf.storedMax d)
+        | _ => []
+      pure (jObj [("accepts", jBool l.ctorAccepts), ("wf", jBool l.WF), ("stored_max", jInts stored)])),
+  ("spec.py_eq", fun j => do pure (jBool ((← getLeaf (← field j "a")).pyEq (← getLeaf (← field j "b"))))),
+  ("spec.reduce", fun j => do
+      let l ← getLeaf (← field j "spec")
+      pure (jObj [("cls", jStr (kindStr l.reduce.1)), ("args", jList jAttrVal l.reduce.2),
+                  ("unreduce", match l.unreduce with | some l' => jLeaf l' | none => .null)])),
+  ("spec.attrs", fun j => do
+      let l ← getLeaf (← field j "spec")
+      pure (jObj [("shape", jAttrVal (l.get .shape)), ("dtype", jAttrVal (l.get .dtype)), ("name", jAttrVal (l.get .name)),
+                  ("minimum", jAttrVal (l.get .minimum)), ("maximum", jAttrVal (l.get .maximum)),
+                  ("num_values", jAttrVal (l.get .numValues))])),
+  ("spec.node_replace", fun j => do
+      let n : Node := { name := ← fStr j "name", children := ← getChildren (← field j "children") }
+      let r := n.replace (← getChildren (← field j "kws"))
+      pure (jObj [("name", jStr r.name),
+                  ("children", jList (fun (c : String × Nested) => jObj [("key", jStr c.1), ("spec", jNested c.2)]) r.children),
+                  ("flat", jNested r.flatten)])),
+
   ("spec.wf", fun j => do pure (jBool (← getLeaf (← field j "spec")).WF)),
   ("spec.valid", fun j => do pure (jBool ((← getLeaf (← field j "spec")).valid (← getArr (← field j "value"))))),
   ("spec.generate", fun j => do pure (jArr (← getLeaf (← field j "spec")).generate)),
